@@ -47,13 +47,16 @@ pub fn evaluate_expression(expr: &str, facts: &Facts) -> Result<Value> {
     // Could be: string literal, field reference (Order.quantity), number (100), or variable
 
     // Is it a string literal?
-    if expr.len() >= 2 {
-        let unquoted = &expr[1..expr.len() - 1];
-        if (expr.starts_with('"') && expr.ends_with('"') && !unquoted.contains('"'))
-            || (expr.starts_with('\'') && expr.ends_with('\'') && !unquoted.contains('\''))
+    // (strip the quotes only after checking them: slicing `[1..len - 1]` first
+    // would split a multi-byte first or last character)
+    for quote in ['"', '\''] {
+        if let Some(unquoted) = expr
+            .strip_prefix(quote)
+            .and_then(|rest| rest.strip_suffix(quote))
         {
-            let unquoted = &expr[1..expr.len() - 1];
-            return Ok(Value::String(unquoted.to_string()));
+            if !unquoted.contains(quote) {
+                return Ok(Value::String(unquoted.to_string()));
+            }
         }
     }
 
